@@ -37,6 +37,14 @@ func genC18(t *rapid.T) c18Case {
 	var c c18Case
 	text, graphs, prof := genProfileAndGraphs(t, "c18", 2)
 	c.Profiles = append(c.Profiles, text)
+	// node ids with percent-encoded characters: the report is text that must be emitted verbatim, not interpreted
+	for _, g := range graphs {
+		for i, n := range g.Nodes {
+			if rapid.IntRange(0, 2).Draw(t, "pctId") == 0 {
+				n.ID = fmt.Sprintf("%sapis/my%%20api%%2Fv%d.raml#/web-api/%%d%%s", m.NodeNS, i)
+			}
+		}
+	}
 	for _, g := range graphs {
 		c.Docs = append(c.Docs, g.JSONLD(m.LDOpts{Indent: rapid.SampledFrom([]int{0, 2}).Draw(t, "indent")}))
 	}
